@@ -42,3 +42,48 @@ SPECS = {
         ],
     },
 }
+
+# ---- wave 5: the multi-underlying / rates / credit payoffs (never instantiated before).  Vector sub-expressions are bound to the
+# list primitives of Model/PayoffVec.v through `subst` (exact source text: any edit of such a sub-expression makes the translation
+# fail closed); the scalar skeleton (max / min / conditional / products with the factor) is translated from the source.
+RATES = "(accruals deltas underlying_rates)"
+HEADER_X = ("From Coq Require Import ZArith QArith Qminmax Qabs Bool List.\nFrom RV Require Import Base.QB Model.PayoffVec.\n"
+            "Import ListNotations.\nOpen Scope Q_scope.\n")
+SPECS["GenC17Exotic"] = {
+    "file": "rpylib/product/payoff.py",
+    "dom": "Q",
+    "header": HEADER_X,
+    "calls": {"np.maximum": "Qmaxb", "np.sum": "qsum"},
+    "funcs": [
+        {"py": "FixedCoupon.evaluate", "coq": "fixedcoupon_eval", "pyargs": ["underlying"],
+         "args": [("coupon", "Q"), U], "ret": "Q", "attrs": {"self.coupon": "coupon"}},
+        # Rainbow.__init__: self._weights = np.flip(np.array(weights)); _eps = +1 (CALL) / -1 (PUT)
+        {"py": "Rainbow.evaluate", "coq": "rainbow_eval", "pyargs": ["underlying"],
+         "args": [("eps", "Q"), ("weights_flipped", "list Q"), ("strike", "Q"), ("underlying", "list Q")], "ret": "Q",
+         "attrs": {"self._eps": "eps", "self.strike": "strike"},
+         "subst": {"np.sort(underlying)": "(qsort underlying)",
+                   "sum(self._weights * sorted_underlying)": "(dotq weights_flipped sorted_underlying)"}},
+        # CDS.__init__: _T = maturity, _r = -log(df(1)), _df_T = df(maturity); the discounting function is a parameter
+        {"py": "CDS.evaluate", "coq": "cds_eval", "pyargs": ["default_time"],
+         "args": [("recovery_rate", "Q"), ("spread", "Q"), ("T", "Q"), ("r", "Q"), ("df_T", "Q"), ("df", "Q -> Q"), ("default_time", "Q")],
+         "ret": "Q",
+         "attrs": {"self.recovery_rate": "recovery_rate", "self.spread": "spread", "self._T": "T", "self._r": "r", "self._df_T": "df_T"},
+         "calls": {"self._df": "df"}},
+        {"py": "Bond.evaluate", "coq": "bond_eval", "pyargs": ["underlying_rates"],
+         "args": [("deltas", "list Q"), ("factor", "Q"), ("underlying_rates", "list Q")], "ret": "Q",
+         "attrs": {"self._factor": "factor"},
+         "subst": {"np.prod(1 + self.deltas * underlying_rates)": f"(qprod {RATES})"}},
+        {"py": "Cap.evaluate", "coq": "cap_eval", "pyargs": ["underlying_rates"],
+         "args": [("deltas", "list Q"), ("strike", "Q"), ("factor", "Q"), ("underlying_rates", "list Q")], "ret": "Q",
+         "attrs": {"self._factor": "factor"},
+         "subst": {"np.cumprod(1 + self.deltas * underlying_rates)": f"(cumprod {RATES})",
+                   "self.deltas * np.maximum(underlying_rates - self.strike, 0) * adj[::-1]": "(cap_terms deltas strike underlying_rates (rev adj))"}},
+        # Swaption.__init__: _eps = 1 (PAYER) / -1 (RECEIVER)
+        {"py": "Swaption.evaluate", "coq": "swaption_eval", "pyargs": ["underlying_rates"],
+         "args": [("eps", "Q"), ("deltas", "list Q"), ("strike", "Q"), ("factor", "Q"), ("underlying_rates", "list Q")], "ret": "Q",
+         "attrs": {"self._eps": "eps", "self.strike": "strike", "self._factor": "factor"},
+         "subst": {"np.cumprod(1 + self.deltas * underlying_rates)": f"(cumprod {RATES})",
+                   "aux[-1]": "(last aux 0)",
+                   "np.sum(self.deltas * aux[::-1])": "(dotq deltas (rev aux))"}},
+    ],
+}
